@@ -28,7 +28,7 @@ CHECKS_FOR = {'C01-B': ['C01', 'C03'], 'C02-B': ['C02', 'C03'],
               'C10-H': ['C10', 'C16', 'C17'], 'C03-H': ['C03', 'C17'],
               # round 5
               'C01-I': ['C01', 'C12'], 'C01-J': ['C01', 'C11'],
-              'C02-I': ['C02', 'C07'], 'C02-J': ['C02', 'C01'],
+              'C02-I': ['C02', 'C07'], 'C02-J': ['C02'],
               'C03-I': ['C03', 'C12'], 'C04-I': ['C04', 'C03'],
               'C04-J': ['C04', 'C12'], 'C05-I': ['C05', 'C13'],
               'C05-J': ['C05'], 'C08-I': ['C08', 'C16'],
